@@ -32,6 +32,29 @@ static void emu_mixed (OrcOpcodeExecutor *ex, int offset, int n)
   for (i = 0; i < n; i++) d[i] = a[i] + b[i];
 }
 static OrcStaticOpcode setMixed[] = { { "addlwx", 0, { 4 }, { 4, 2 }, emu_mixed }, { "" } };
+/* accumulator opcodes of an application: one accumulator (sum), and two accumulators written by one instruction (sum
+ * and sum of squares); registered in every history without rules, judged under emulation */
+static void emu_acc1 (OrcOpcodeExecutor *ex, int offset, int n)
+{
+  int i;
+  const orc_uint32 *a = ex->src_ptrs[0];
+  orc_uint32 s = 0;
+  (void) offset;
+  for (i = 0; i < n; i++) s += a[i];
+  *(orc_uint32 *) ex->dest_ptrs[0] += s;
+}
+static void emu_acc2 (OrcOpcodeExecutor *ex, int offset, int n)
+{
+  int i;
+  const orc_uint32 *a = ex->src_ptrs[0];
+  orc_uint32 s = 0, q = 0;
+  (void) offset;
+  for (i = 0; i < n; i++) { s += a[i]; q += a[i] * a[i]; }
+  *(orc_uint32 *) ex->dest_ptrs[0] += s;
+  *(orc_uint32 *) ex->dest_ptrs[1] += q;
+}
+static OrcStaticOpcode setAcc[] = { { "accsumlx", ORC_STATIC_OPCODE_ACCUMULATOR, { 4 }, { 4 }, emu_acc1 },
+  { "accsumsqlx", ORC_STATIC_OPCODE_ACCUMULATOR, { 4, 4 }, { 4 }, emu_acc2 }, { "" } };
 
 static OrcStaticOpcode setA[] = { { "myop", 0, { 2 }, { 2, 2 }, emu_0 }, { "myop2", 0, { 2 }, { 2, 2 }, emu_1 }, { "" } };
 static OrcStaticOpcode setB[] = { { "addbx", 0, { 2 }, { 2, 2 }, emu_2 }, { "" } };
@@ -173,6 +196,7 @@ static void child (const Op * hist, int nh, int wfd)
   alarm (120);	/* wall-clock backstop only: generous, so that a loaded machine cannot turn it into an alarm */
   for (i = 0; i < 24; i++) { S1v[i] = (orc_uint16) (i * 3001 + 17); S2v[i] = (orc_uint16) (i * 7919 + 60000); }
   orc_opcode_register_static (setMixed, "appMixed");
+  orc_opcode_register_static (setAcc, "appAcc");
   for (i = 0; i < nh; i++) {
     const Op *o = &hist[i];
     if (o->kind == 0) {
@@ -316,6 +340,39 @@ static void child (const Op * hist, int nh, int wfd)
         if (d[i] != want) FAIL ("addlwx d1, s1, %s (sources of 4 and 2 bytes): element %d is 0x%x, the application's function of the operands gives 0x%x", kind == 0 ? "s2" : kind == 1 ? "c1=-0x1234" : "p1=-0x1234", i, (unsigned) d[i], (unsigned) want);
       }
       if (d[21] != 0x5a5a5a5a) FAIL ("addlwx wrote past n");
+      orc_program_free (p);
+    }
+  }
+  /* application accumulator opcodes under emulation: one and two accumulators per instruction, every assignment of
+   * the accumulator variables a1..a3 to the destinations, alone and after a built-in accl into the third */
+  {
+    int da, db, form;
+    for (form = 0; form < 3; form++) for (da = 0; da < 3; da++) for (db = 0; db < 3; db++) {
+      static const char *an[3] = { "a1", "a2", "a3" };
+      OrcProgram *p;
+      OrcExecutor ex;
+      orc_uint32 a[24], want[3] = { 0, 0, 0 }, s = 0, q = 0;
+      int third = 3 - da - db;
+      if (da == db) continue;
+      if (form == 0 && db != (da + 1) % 3) continue;	/* one accumulator: db unused */
+      for (i = 0; i < 24; i++) a[i] = (orc_uint32) i * 2654435761u + 12345u;
+      for (i = 0; i < 21; i++) { s += a[i]; q += a[i] * a[i]; }
+      p = orc_program_new ();
+      orc_program_set_name (p, "appacc");
+      orc_program_add_source (p, 4, "s1");
+      orc_program_add_accumulator (p, 4, "a1"); orc_program_add_accumulator (p, 4, "a2"); orc_program_add_accumulator (p, 4, "a3");
+      if (form == 2) { orc_program_append_ds_str (p, "accl", an[third], "s1"); want[third] = s; }
+      if (form == 0) { orc_program_append_ds_str (p, "accsumlx", an[da], "s1"); want[da] += s; }
+      else { orc_program_append_str (p, "accsumsqlx", an[da], an[db], "s1"); want[da] += s; want[db] += q; }
+      if (ORC_COMPILE_RESULT_IS_FATAL (orc_program_compile_for_target (p, NULL))) FAIL ("application accumulator opcode (form %d, %s,%s): fatal compile for emulation", form, an[da], an[db]);
+      memset (&ex, 0, sizeof (ex));
+      orc_executor_set_program (&ex, p);
+      ex.n = 21;
+      ex.arrays[ORC_VAR_S1] = a;
+      orc_executor_emulate (&ex);
+      for (i = 0; i < 3; i++) if ((orc_uint32) ex.accumulators[i] != want[i])
+        FAIL ("%s%s %s%s%s, s1 under emulation: accumulator a%d is 0x%x, the application's function gives 0x%x", form == 2 ? "accl into the third accumulator, then " : "",
+            form == 0 ? "accsumlx" : "accsumsqlx", an[da], form ? ", " : "", form ? an[db] : "", i + 1, (unsigned) ex.accumulators[i], (unsigned) want[i]);
       orc_program_free (p);
     }
   }
